@@ -72,8 +72,10 @@ def pool():
             # ec1 / ec2 / rsa are look-alikes: same subject, issuer and serial number, different keys - what tells
             # two self-signed certificates apart is their content (fingerprint), nothing an impostor can copy
             "ec1": certs.identity("c03-ec1", "ec", serial=777001),
-            "ec2": certs.identity("c03-ec2", "ec", serial=777001),
-            "rsa": certs.identity("c03-rsa", "rsa", serial=777001),
+            # ... and they differ in their validity period: ec2 expired a month ago, rsa is not valid yet. A pin
+            # is about WHICH certificate a host presents; dates do not make another certificate the pinned one
+            "ec2": certs.identity("c03-ec2", "ec", serial=777001, validity="expired"),
+            "rsa": certs.identity("c03-rsa", "rsa", serial=777001, validity="not-yet"),
             "ed": certs.identity("c03-ed", "ed25519"),
             "tbool": certs.identity("c03-tbool", "ec", tamper="bool"),
             "tver": certs.identity("c03-tver", "ec", tamper="version"),
